@@ -11,6 +11,6 @@ EXTENDS MC_Session
 C01Lines == { B("10 INPUT X:PRINT X"), B("20 STOP:GOTO 10"), B("30 GOSUB 30"), B("10"), B("20 %"),
               B("5 FOR I=1 TO 2:READ A:NEXT I:DATA 1,x"), B("5"), B("READ Q"), B("FOR I=1 TO 2"),
               B("RUN"), B("CONT"), B("NEW"), B("LIST"), B("TRACE"),
-              B("PRINT 1/0"), B("X=X+1:PRINT X"), B("GOTO 20"), B("NEXT I"), B("RETURN"), B("\"") }
+              B("PRINT 1/0"), B("PRINT X.5+"), B("X=X+1:PRINT X"), B("GOTO 20"), B("NEXT I"), B("RETURN"), B("\"") }
 C01Replies == { B("5"), B("abc") }
 =============================================================================
